@@ -54,6 +54,7 @@ type Frame struct {
 	ghostIn map[string]*Val // named ghost values for contract evaluation
 
 	loopEntryVals map[*Loop][]*Val
+	site          int // for an inlined frame: ordinal of the call site among the caller's calls of this function
 	rootLocs     []assignLoc
 	rootLocsAll  bool
 	rootLocsDone bool
@@ -1046,6 +1047,21 @@ func (fr *Frame) execLoopCut(l *Loop, in []*Edge) map[*ssa.BasicBlock][]*Edge {
 		ri.RootScope = true
 		lc.Invariants = append(lc.Invariants, ri)
 	}
+	// clauses the root function states about this loop of an inlined callee
+	if root := fr.rootFrame(); root != nil && root != fr && root.contract != nil {
+		for _, wl := range []*LoopContract{root.contract.Within[fmt.Sprintf("%s#%d", fname, l.ord)], root.contract.Within[fmt.Sprintf("%s@%d#%d", fname, fr.site, l.ord)]} {
+			if wl == nil {
+				continue
+			}
+			nlc := &LoopContract{}
+			if lc != nil {
+				*nlc = *lc
+			}
+			nlc.Invariants = append(append([]Clause{}, nlc.Invariants...), wl.Invariants...)
+			nlc.Latch = append(append([]Clause{}, nlc.Latch...), wl.Latch...)
+			lc = nlc
+		}
+	}
 	// 1. invariant on entry
 	fr.reach, fr.st = reachIn, pre
 	if lc != nil {
@@ -1205,8 +1221,16 @@ func (fr *Frame) execLoopCut(l *Loop, in []*Edge) map[*ssa.BasicBlock][]*Edge {
 				continue
 			}
 			// in a latch clause old(e) is e at the start of this iteration
-			t := fr.evalGoal(lt.Expr, scope, e.st, head.st)
-			vc.obligeNamed(fr, fmt.Sprintf("%s/loop%d/latch/%d@%d", fname, l.ord, i, li), "latch", t, lt.Tags, lt.Src)
+			lsc := scope
+			if lt.Mixed {
+				lsc = fr.mixedScope(scope)
+			}
+			t := fr.evalGoal(lt.Expr, lsc, e.st, head.st)
+			lname := fmt.Sprint(i)
+			if lt.Label != "" {
+				lname = lt.Label
+			}
+			vc.obligeNamed(fr, fmt.Sprintf("%s/loop%d/latch/%s@%d", fname, l.ord, lname, li), "latch", t, lt.Tags, lt.Src)
 		}
 		if len(loopLocs) > 0 {
 			for _, k := range sortedKeys(mod) {
@@ -1298,7 +1322,11 @@ func locsCover(locs []assignLoc, k string) func(a string) string {
 			if loc.cell {
 				for _, l := range flatten(loc.t) {
 					if l.Key == k {
-						cs = append(cs, eq(a, add(loc.addr, intLit(int64(l.Slot)))))
+						c := eq(a, add(loc.addr, intLit(int64(l.Slot))))
+						if loc.cond != "" {
+							c = and(loc.cond, c)
+						}
+						cs = append(cs, c)
 					}
 				}
 				continue
@@ -1349,6 +1377,9 @@ func (fr *Frame) rootAssignLocs() ([]assignLoc, bool, []string) {
 // scope, or (for invariants derived from the root function's assigns clause)
 // the root function's parameters and entry state.
 func (fr *Frame) invCtx(inv Clause, scope map[string]*Val) (map[string]*Val, *State) {
+	if inv.Mixed {
+		return fr.mixedScope(scope), fr.entry
+	}
 	if !inv.RootScope {
 		return scope, fr.entry
 	}
@@ -1358,4 +1389,23 @@ func (fr *Frame) invCtx(inv Clause, scope map[string]*Val) (map[string]*Val, *St
 		sc[k] = v
 	}
 	return sc, root.entry
+}
+
+// mixedScope: the callee's loop scope plus the root function's parameters as
+// root_<name> and its receiver as self.
+func (fr *Frame) mixedScope(scope map[string]*Val) map[string]*Val {
+	root := fr.rootFrame()
+	sc := map[string]*Val{}
+	for k, v := range scope {
+		sc[k] = v
+	}
+	if root != nil {
+		for k, v := range root.params {
+			sc["root_"+k] = v
+		}
+		if len(root.fn.Params) > 0 && root.fn.Signature.Recv() != nil {
+			sc["self"] = root.vals[root.fn.Params[0]]
+		}
+	}
+	return sc
 }
